@@ -367,6 +367,79 @@ def expr_strategy():
     return st.tuples(st.recursive(leaf, extend, max_leaves=7), st.randoms(use_true_random=False))
 
 
+def flat_chains():
+    """Deterministic operator-interaction matrix: every ordered triple of infix operators in a flat chain of four
+    small operands, with one unary minus or one factorial at each operand position (or none). Returns ASTs built
+    by a tiny grammar-encoded reference parser for the documented table (sources are printed without any
+    parentheses, so the implementations have to get every pairwise interaction right)."""
+    import itertools
+
+    leaves = [7, 2, 3, 2]
+    out = []
+    for ops in itertools.product("+-*/^", repeat=3):
+        for pos in range(-1, 4):
+            for un in (("neg", "fac") if pos >= 0 else ("",)):
+                toks = []
+                for i, v in enumerate(leaves):
+                    if un == "neg" and i == pos:
+                        toks.append("-")
+                    toks.append(v)
+                    if un == "fac" and i == pos:
+                        toks.append("!")
+                    if i < 3:
+                        toks.append(ops[i])
+                out.append((" ".join(str(t) for t in toks), _ref_parse(toks)))
+    return out
+
+
+def _ref_parse(toks):
+    """tokens -> AST by the documented table: + - < * / < ^ (right) < prefix - < postfix !"""
+    pos = [0]
+
+    def peek():
+        return toks[pos[0]] if pos[0] < len(toks) else None
+
+    def take():
+        pos[0] += 1
+        return toks[pos[0] - 1]
+
+    def postfix():
+        node = ("int", take())
+        while peek() == "!":
+            take()
+            node = ("fac", node)
+        return node
+
+    def prefix():
+        if peek() == "-":
+            take()
+            return ("neg", prefix())
+        return postfix()
+
+    def power():
+        left = prefix()
+        if peek() == "^":
+            take()
+            return ("bin", "^", left, power())
+        return left
+
+    def term():
+        left = power()
+        while peek() in ("*", "/"):
+            op = take()
+            left = ("bin", op, left, power())
+        return left
+
+    def expr():
+        left = term()
+        while peek() in ("+", "-"):
+            op = take()
+            left = ("bin", op, left, term())
+        return left
+
+    return expr()
+
+
 def n_ops(ast):
     if ast[0] in ("int", "var"):
         return 0
@@ -508,6 +581,26 @@ def run_shard(ctx: Ctx, spec):
                     ctx.sample({"kind": "calc", "source": source, "values": want})
 
         tc()
+
+        # deterministic operator-interaction matrix
+        chains = flat_chains()
+        for j, (source, ast) in enumerate(chains):
+            if j % 16 != spec["idx"]:
+                continue
+            try:
+                want = [ref_eval(ast, env) for env in ENVS]
+            except Discard:
+                ctx.count("chain_discarded")
+                continue
+            ctx.count("chain_expressions")
+            for pkg, w in (("calc_raw", modes.raw), ("calc_opt", modes.opt)):
+                row = w.call("pestverif.props.c17:calc_eval", {"pkg": pkg, "sources": [source], "envs": ENVS})[0]
+                ctx.evals += 3
+                for bucket, detail in calc_violations(row, want, source):
+                    ctx.violation(f"chain:{bucket}", {"kind": "calc", "source": source, "want": want, "pkg": pkg},
+                                  f"[{pkg}] {detail}")
+            ctx.nontrivial(["chain", source])
+        ctx.exhaustive.update({"flat_chain_expressions": len(chains)})
     finally:
         modes.close()
         shutil.rmtree(tmp, ignore_errors=True)
